@@ -547,13 +547,16 @@ func (w *watch) watch(fsw *fsnotify.Watcher, m *sync.Mutex, refresh func() error
 			}
 
 			if (event.Op & eventMask) == 0 {
+				verifEvent(event.Op.String(), event.Name, false)
 				continue
 			}
 			if event.Op == fsnotify.Write || event.Op == fsnotify.Create {
 				if ext := filepath.Ext(event.Name); ext != ".json" && ext != ".yaml" {
+					verifEvent(event.Op.String(), event.Name, false)
 					continue
 				}
 			}
+			verifEvent(event.Op.String(), event.Name, true)
 
 			m.Lock()
 			if event.Op == fsnotify.Remove && w.tracked[event.Name] {
